@@ -76,11 +76,14 @@ Qed.
 Definition pkt_of (t : tuple) (hop : Z) (r : tcp_repr) : packet :=
   with_payload_len (mkIp (tu_local_addr t) (tu_remote_addr t) hop 0) r.
 
-Theorem dispatch_inv : forall cx g s e s' res tags,
+(* the full statement, with the classification of the ghost after the call for every result *)
+Theorem dispatch_inv_full : forall cx g s e s' res tags,
   inv g s -> ctx_ok cx -> tcp_dispatch cx s e = Ok (s', res, tags) ->
   exists g1 s1 g',
     (g1 = g \/ g1 = g_rewind g) /\ inv g1 s1 /\ frame s s1 /\
     inv g' s' /\ ghost_rel g g' /\ (frame s s' \/ s' = tcp_reset s) /\
+    (g' = g1 \/ (exists f, g' = g_sent g1 f /\ g_flight g1 <= f) \/
+     (g' = ghost0 /\ s' = tcp_reset s /\ res = DNothing)) /\
     match res with
     | DNothing => True
     | DSent p =>
@@ -96,11 +99,12 @@ Proof.
   destruct (s_tuple s) as [t|] eqn:Et.
   2: { injection H as <- <- <-. exists g, s, g. split; [auto|]. split; [exact Hinv|].
        split; [apply frame_refl|]. split; [exact Hinv|]. split; [left; apply same_epoch_refl|].
-       split; [left; apply frame_refl|exact I]. }
+       split; [left; apply frame_refl|]. split; [left; reflexivity|exact I]. }
   destruct (negb (tu_local_addr t =? cx_addr cx)).
   { injection H as <- <- <-. exists g, s, ghost0. split; [auto|]. split; [exact Hinv|].
     split; [apply frame_refl|]. split; [eapply reset_inv; exact Hinv|].
-    split; [right; unfold new_epoch, ghost0; cbn; auto|]. split; [right; reflexivity|exact I]. }
+    split; [right; unfold new_epoch, ghost0; cbn; auto|]. split; [right; reflexivity|].
+    split; [right; right; repeat split; reflexivity|exact I]. }
   rewrite dtimers_unfold in H.
   set (s0 := if is_some (s_remote_last_ts s) then s else upd_remote_last_ts s (Some (cx_now cx))) in *.
   assert (Hinv0 : inv g s0).
@@ -117,7 +121,8 @@ Proof.
   2: { injection H as <- <- <-. exists g1, s1, g1. split; [exact Hg1|]. split; [exact Hinv1|].
        split; [eapply frame_trans; eassumption|]. split; [exact Hinv1'|].
        split; [left; exact Hrel1|].
-       split; [left; eapply frame_trans; [eapply frame_trans; eassumption|exact Hfr1']|exact I]. }
+       split; [left; eapply frame_trans; [eapply frame_trans; eassumption|exact Hfr1']|].
+       split; [left; reflexivity|exact I]. }
   specialize (Hgo eq_refl). subst s1'.
   destruct (tcp_dispatch_build cx s1 t) as [[[[[s2 orepr] zwp] ka] t3]| |] eqn:E3; cbn [obind] in H;
     try discriminate.
@@ -125,7 +130,8 @@ Proof.
   2: { injection H as <- <- <-. apply build_none in E3. subst s2.
        exists g1, s1, g1. split; [exact Hg1|]. split; [exact Hinv1|].
        split; [eapply frame_trans; eassumption|]. split; [exact Hinv1|].
-       split; [left; exact Hrel1|]. split; [left; eapply frame_trans; eassumption|exact I]. }
+       split; [left; exact Hrel1|]. split; [left; eapply frame_trans; eassumption|].
+       split; [left; reflexivity|exact I]. }
   destruct (build_spec _ _ _ _ _ _ _ _ _ Hinv1 Hcx E3) as (Hs2 & Hok).
   assert (Hinv2 : inv g1 s2).
   { destruct Hs2 as [->| ->]; [exact Hinv1|eapply inv_txv; [|exact Hinv1]; reflexivity]. }
@@ -143,6 +149,7 @@ Proof.
       split; [lia|]. split; [lia|]. intros G. destruct (A5 G) as (G1 & S1). destruct (B5 G1) as (G2 & S2).
       split; [exact G2|congruence].
     + split; [left; eapply frame_trans; [eapply frame_trans; eassumption|exact Hfr']|].
+      split; [destruct Hg' as [X|X]; [left; exact X|right; left; exact X]|].
       exists zwp, ka. split; [exact Hok|]. split; [reflexivity|]. split; [exact Hse|exact Hg'].
   - (* the device refused the frame: the socket stays as it was when the segment was built *)
     injection H as <- <- <-.
@@ -151,7 +158,30 @@ Proof.
     split; [left; exact Hrel1|].
     split; [left; eapply frame_trans; [eapply frame_trans; eassumption|];
             destruct Hs2 as [->| ->]; [apply frame_refl|unfold frame; fld; repeat split; auto]|].
+    split; [left; reflexivity|].
     exists zwp, ka. split; [exact Hok|]. split; reflexivity.
+Qed.
+
+Theorem dispatch_inv : forall cx g s e s' res tags,
+  inv g s -> ctx_ok cx -> tcp_dispatch cx s e = Ok (s', res, tags) ->
+  exists g1 s1 g',
+    (g1 = g \/ g1 = g_rewind g) /\ inv g1 s1 /\ frame s s1 /\
+    inv g' s' /\ ghost_rel g g' /\ (frame s s' \/ s' = tcp_reset s) /\
+    match res with
+    | DNothing => True
+    | DSent p =>
+        exists zwp ka, seg_ok cx g1 s1 (snd p) zwp ka /\
+                       ip_payload_len (fst p) = repr_buffer_len (snd p) /\ same_epoch g1 g' /\
+                       (g' = g1 \/ exists f, g' = g_sent g1 f /\ g_flight g1 <= f)
+    | DEmitFailed p =>
+        exists zwp ka, seg_ok cx g1 s1 (snd p) zwp ka /\
+                       ip_payload_len (fst p) = repr_buffer_len (snd p) /\ g' = g1
+    end.
+Proof.
+  intros cx g s e s' res tags Hinv Hcx H.
+  destruct (dispatch_inv_full _ _ _ _ _ _ _ Hinv Hcx H)
+    as (g1 & s1 & g' & A1 & A2 & A3 & A4 & A5 & A6 & _ & A8).
+  exists g1, s1, g'. auto 10.
 Qed.
 
 (* ------------------------------------------------------------------------------------------ *)
